@@ -41,7 +41,13 @@ func runC15(c *vf.Ctx) {
 	}
 }
 
+// httpClientGoroutines counts the goroutines that net/http keeps per open client connection.
+func httpClientGoroutines() int {
+	return strings.Count(vf.AllStacks(), "net/http.(*persistConn).readLoop")
+}
+
 func c15One(c *vf.Ctx, sub string, i int, r *rand.Rand, ids []Ident) {
+	httpBefore := httpClientGoroutines()
 	announced := r.Intn(2) == 0
 	var point string
 	if announced {
@@ -494,6 +500,19 @@ func c15One(c *vf.Ctx, sub string, i int, r *rand.Rand, ids []Ident) {
 	}
 	if len(left) > 0 {
 		c.Fail(sub, i, "goroutine-left-after-close:"+vf.LibFrame(left[0]), left[0], wit())
+	}
+	// ... including those that net/http runs for the connections the subscriber's syncs opened and left idle
+	httpAfter := 0
+	for try := 0; try < 200; try++ {
+		if httpAfter = httpClientGoroutines(); httpAfter <= httpBefore {
+			break
+		}
+		time.Sleep(5 * time.Millisecond)
+	}
+	if httpAfter > httpBefore {
+		c.Fail(sub, i, "http-connection-goroutines-left-after-close", fmt.Sprintf("%d connection reader goroutines of the HTTP client before the subscriber was created, %d after Close returned: connections opened by its syncs are still open", httpBefore, httpAfter), wit())
+	} else {
+		c.Inc("http_client_connections_checked")
 	}
 	c.Eval(1)
 	c.Distinct(sub, fmt.Sprint(announced), point, fmt.Sprint(closers), fmt.Sprint(extraAnn > 0, nlist > 0))
